@@ -2,6 +2,7 @@ package props
 
 import (
 	"fmt"
+	"go/types"
 	"math/big"
 	"strings"
 
@@ -19,7 +20,7 @@ func init() {
 			"(equal => no write, different non-zero => error), for the value just loaded from the same slot; a timeslot before the history origin is refused; ADDRESS saver and loader compute the byte offset 4*(1 + timeslot - origin) with the same term, exact (no wrap-around) for timeslot - origin up to 2^30-2, " +
 			"which covers every timeslot UnixToTimeslot can produce; SEND-AFTER-SAVE in the reporting loop a report for a new reading is sent only after the saver returned nil for (record.Timeslot, uint32(record.Energy)) of the very record that is sent; the start-up pass saves and never sends; " +
 			"the resend pass sends only values returned by the history loader; every datagram is built by one sender function from (id, timeslot, value) and signed over SigningBytes of that same structure, so equal (timeslot, value) give byte-identical datagrams (deterministic signing, trusted). " +
-			"a reading is sent only under E == uint64(int32(uint32(E))) (what a re-send reconstructs from the 32-bit history); the saver returns nil after the write only if WriteAt succeeded; the loader answers \"empty\" only under err == io.EOF (or before the origin) and a value only when the read succeeded. NOT decided: the evolution of the energy file as such; two rows whose values differ only above bit 31 (the saver compares 32 bits while the first send carries 64: noted).",
+			"a reading is sent only under E == uint64(int32(uint32(E))) (what a re-send reconstructs from the 32-bit history); the saver returns nil after the write only if WriteAt succeeded; the loader answers \"empty\" only under err == io.EOF (or before the origin) and a value only when the read succeeded. STORE at every call of the history saver a 64-bit reading is narrowed to 32 bits only under E == uint64(int32(uint32(E))). NOT decided: the evolution of the energy file as such; two rows whose values differ only above bit 31 (the saver compares 32 bits while the first send carries 64: noted).",
 		Assumptions: append([]string{"(*os.File).WriteAt/ReadAt address the same bytes for the same offset", "glow.Sign is deterministic (RFC 6979, trusted)"}, baseAssumptions...),
 		Run:         runC09,
 	})
@@ -553,6 +554,30 @@ func sendAfterSave(c *an.Ctx, saver, loader *ssa.Function) {
 	}
 	c.Count("SEND", n)
 	c.Floor("SEND", 1)
+	// what is stored: a 64-bit reading is narrowed to the 32 bits of the history only if nothing is lost, at every call
+	// of the saver (start-up pass and reporting loop alike); otherwise the history holds a value that was never read
+	nStore := 0
+	for _, site := range p.CallSites(saver) {
+		call, ok := site.(*ssa.Call)
+		if !ok || len(call.Call.Args) < 3 {
+			continue
+		}
+		cfi := p.Info(call.Parent())
+		vt := cfi.Term(call.Call.Args[2])
+		if vt.K != an.KConv || !strings.HasSuffix(vt.S, "uint32") || len(vt.A) != 1 {
+			continue
+		}
+		if bits, _, isInt := intBits(vt.A[0].Typ); !isInt || bits <= 32 {
+			continue
+		}
+		nStore++
+		c.Scope(call.Parent())
+		c.Check(representableFact(cfi.FactsAt(call), vt.A[0]), "SEND", call.Parent(), call.Pos(), an.KeyOf(call.Parent(), "store-representable"),
+			"a reading is stored in the 32-bit history only if it survives the round trip unchanged (E == uint64(int32(uint32(E)))): the history never holds a value the meter did not report, and a value whose low 32 bits are zero is never mistaken for an empty slot",
+			"facts "+factList(cfi.FactsAt(call)))
+	}
+	c.Count("STORE", nStore)
+	c.Floor("STORE", 1)
 	// the start-up pass (the function that launches the reporting loop) saves but does not send
 	for _, fn := range p.FuncsIn("client") {
 		callsSaver, callsSender, launches := false, false, false
@@ -574,6 +599,25 @@ func sendAfterSave(c *an.Ctx, saver, loader *ssa.Function) {
 			c.Check(!callsSender, "SEND", fn, fn.Pos(), an.KeyOf(fn, "startup-no-send"), "the start-up pass records the existing readings in the history and sends nothing", "no call of the sender")
 		}
 	}
+}
+
+func intBits(t types.Type) (int, bool, bool) {
+	if t == nil {
+		return 0, false, false
+	}
+	b, ok := t.Underlying().(*types.Basic)
+	if !ok || b.Info()&types.IsInteger == 0 {
+		return 0, false, false
+	}
+	switch b.Kind() {
+	case types.Int8, types.Uint8:
+		return 8, b.Kind() == types.Int8, true
+	case types.Int16, types.Uint16:
+		return 16, b.Kind() == types.Int16, true
+	case types.Int32, types.Uint32:
+		return 32, b.Kind() == types.Int32, true
+	}
+	return 64, b.Info()&types.IsUnsigned == 0, true
 }
 
 // representableFact: the facts contain E == uint64(int32(uint32(E))).
